@@ -1,4 +1,4 @@
-CONSTANTS Fns = {1, 2} Uds = {1, 2} Types = {"ttx", "net"} Masks <- M2 MaxTop = 4 MaxNested = 2 FixUp = TRUE
+CONSTANTS Fns = {1, 2} Uds = {1, 2} Types = {"ttx", "net"} Masks <- M2 MaxTop = 4 MaxNested = 2 FixUp = TRUE MaxProbe = 0 ResetOnActivate = TRUE
 SPECIFICATION Spec
 INVARIANTS NoDangling OnceInOrder AllCalled OnlyRegistered Acquire ListOK
 CHECK_DEADLOCK FALSE
